@@ -25,6 +25,20 @@ class SessionRules(Rule):
             self._loss(d, d.lost_conn)
         if d.connack is not None and d.connack["tag"] == "connack-ok":
             self._connack(d, d.conn)
+        # M3: what an earlier connection left held back is released once CONNACK has arrived, not before
+        L = self.L
+        for op in d.first_tx:
+            rq = op.req
+            if rq is None or rq.kind != "publish" or rq.ci == op.ci:
+                continue
+            c = L.conns.get(op.ci)
+            if c is None or c.addr != rq.addr:
+                continue
+            if c.connack_seq is None or d.seq < c.connack_seq:
+                L.probe("carried_over_released_before_connack")
+                L.violate("C12", "M3", "held-back-released-before-CONNACK:%s" % ("clean" if c.clean else "persistent"),
+                          "publish rid=%d, held back by an earlier connection, first written on conn %d before its CONNACK"
+                          % (rq.rid, c.ci))
 
     # ------------------------------------------------------------------ loss
 
